@@ -21,10 +21,11 @@ static size_t g_nerr;
 static void se(int, void *, int, void *, int, void *) { g_nerr++; }
 static void *bump_alloc(int n) { return malloc(n); }
 
-static Work measure(const ScaleSpec &sp, long n, int la) {
+static Work measure(const ScaleSpec &sp, long n, int la, int mode) {
   void *y = vy_create();
   if (define_by_text(y, sp.text, 1) != 0) machinery_error("scale grammar rejected: " + sp.text);
-  vy_set_lookahead_level(y, la); vy_set_one_parse_flag(y, 1); vy_set_debug_level(y, 1);
+  // mode 0: one parse; 1: all parses requested (the grammars are unambiguous); 2: one parse with the cost flag
+  vy_set_lookahead_level(y, la); vy_set_one_parse_flag(y, mode != 1); vy_set_cost_flag(y, mode == 2); vy_set_debug_level(y, 1);
   g_in.clear();
   if (sp.unit.empty()) { while ((long) g_in.size() < n) g_in.insert(g_in.end(), g_ansic->begin(), g_ansic->end()); }
   else {
@@ -70,17 +71,19 @@ int eng_scale_main(int argc, char **argv) {
   g_ansic = &ansic_toks;
   Report rep;
   long idx = 0;
-  for (auto &sp : specs) for (int la = 0; la < 3; la++) {
+  for (auto &sp : specs) for (int la = 0; la < 3; la++) for (int mode = 0; mode < 3; mode++) {
+    if (mode && la != 1) continue;            // the result-selecting flags are varied at the default lookahead level
     if ((idx++ % sn) != si) continue;
     Report tmp;
     ChildRes cr = run_child([&](Report &r) {
       std::vector<Work> ws;
       for (int j = 0; j <= (sp.unit.empty() ? (jmax >= 9 ? 3 : 2) : jmax); j++) {
         long n = sp.unit.empty() ? (long) g_ansic->size() << j : 1000L << j;
-        Work w = measure(sp, n, la);
+        if (mode == 2 && n > 256000) continue;   // known finding D35: the recursive pruning walk overflows the stack on trees deeper than ~250 000
+        Work w = measure(sp, n, la, mode);
         ws.push_back(w);
         r.add("parses"); r.add("tokens", n);
-        std::string cs = "grammar=" + sp.name + " la=" + std::to_string(la) + " n=" + std::to_string(n);
+        std::string cs = "grammar=" + sp.name + " la=" + std::to_string(la) + " mode=" + std::to_string(mode) + " n=" + std::to_string(n);
         auto V = [&](const std::string &kind, const std::string &d) { r.viol("{\"property\":\"C18\",\"kind\":" + jstr(kind) + ",\"engine\":\"scale\",\"case\":" + jstr(cs) + ",\"grammar\":" + jstr(sp.text) + ",\"detail\":" + jstr(d) + "}"); };
         if (w.rc != 0 || w.errs) { V("not-parsed", "rc=" + std::to_string(w.rc) + " syntax errors=" + std::to_string(w.errs)); continue; }
         if (j > 0) {
@@ -105,14 +108,14 @@ int eng_scale_main(int argc, char **argv) {
         if (w.searches > 14 * n + 5000) V("work-per-token", std::to_string(w.searches) + " hash table searches for " + std::to_string(n) + " tokens");
         if (w.bytes > 500 * n + 2000000) V("work-per-token", std::to_string(w.bytes) + " bytes requested for " + std::to_string(n) + " tokens");
         if (w.collisions > 2 * w.searches + 5000) V("work-per-token", std::to_string(w.collisions) + " collisions in " + std::to_string(w.searches) + " searches");
-        if (j == jmax || (sp.unit.empty() && j == 2)) r.sample("{\"grammar\":" + jstr(sp.name) + ",\"lookahead\":" + std::to_string(la) + ",\"tokens\":" + std::to_string(n) + ",\"bytes\":" + std::to_string(w.bytes) + ",\"requests\":" + std::to_string(w.reqs) + ",\"searches\":" + std::to_string(w.searches) + ",\"collisions\":" + std::to_string(w.collisions) + ",\"unique_sets\":" + std::to_string(w.usets) + ",\"goto_successes\":" + std::to_string(w.gotos) + "}");
+        if (j == jmax || (sp.unit.empty() && j == 2)) r.sample("{\"grammar\":" + jstr(sp.name) + ",\"lookahead\":" + std::to_string(la) + ",\"mode\":" + std::to_string(mode) + ",\"tokens\":" + std::to_string(n) + ",\"bytes\":" + std::to_string(w.bytes) + ",\"requests\":" + std::to_string(w.reqs) + ",\"searches\":" + std::to_string(w.searches) + ",\"collisions\":" + std::to_string(w.collisions) + ",\"unique_sets\":" + std::to_string(w.usets) + ",\"goto_successes\":" + std::to_string(w.gotos) + "}");
         if (a.has("verbose")) printf("%s bytes=%ld reqs=%ld searches=%ld coll=%ld usets=%ld ucores=%ld triples=%ld gotos=%ld\n", cs.c_str(), w.bytes, w.reqs, w.searches, w.collisions, w.usets, w.ucores, w.triples, w.gotos), fflush(stdout);
       }
     }, tmp, 1200);
     for (auto &kv : tmp.counters) rep.counters[kv.first] += kv.second;
     for (auto &v : tmp.violations) rep.violations.push_back(v);
     for (auto &v : tmp.samples) rep.sample(v);
-    if (!cr.ok) { rep.add("violations"); rep.violations.push_back("{\"property\":\"C18\",\"kind\":" + jstr(cr.timeout ? "timeout" : "crash") + ",\"engine\":\"scale\",\"case\":" + jstr("grammar=" + sp.name + " la=" + std::to_string(la)) + ",\"grammar\":" + jstr(sp.text) + ",\"detail\":" + jstr(child_failure_text(cr) + " " + cr.err_tail.substr(0, 800)) + "}"); }
+    if (!cr.ok) { rep.add("violations"); rep.violations.push_back("{\"property\":\"C18\",\"kind\":" + jstr(cr.timeout ? "timeout" : "crash") + ",\"engine\":\"scale\",\"case\":" + jstr("grammar=" + sp.name + " la=" + std::to_string(la) + " mode=" + std::to_string(mode)) + ",\"grammar\":" + jstr(sp.text) + ",\"detail\":" + jstr(child_failure_text(cr) + " " + cr.err_tail.substr(0, 800)) + "}"); }
   }
   rep.write_json(a.get("out", "/dev/stdout"), ",\n \"deadline_hit\": false");
   return 0;
